@@ -24,7 +24,7 @@ import (
 
 func init() { register("C03", runC03) }
 
-var c03Names = []string{"$", "a", "b", "c", "d", "e", "f"} // sorted; interned as 1..; "__key" is 0; "$" is an ordinary field name in an object
+var c03Names = []string{"$", "__proto__", "a", "b", "c", "d", "e", "f"} // sorted; interned as 1..; "__key" is 0; "$" is an ordinary field name in an object
 
 type c03Intern struct {
 	byText map[string]int // JSON text of a scalar -> token
@@ -532,13 +532,32 @@ func c03One(c *Ctx, m *Model, cs c03Case, js *[]c03JSJob) {
 			return
 		}
 	}
-	// Go merge
+	// Go merge: the delta after its JSON round trip (also the empty one), and the delta exactly as Diff returned it
 	var merged interface{} = prev
 	var mergeErr error
-	if implDelta != nil {
-		if p := safely(func() { merged, mergeErr = merge.Merge(deepCopyJSON(prev), wire) }); p != nil {
-			mergeErr = fmt.Errorf("panic: %v", p)
+	if p := safely(func() { merged, mergeErr = merge.Merge(deepCopyJSON(prev), wire) }); p != nil {
+		mergeErr = fmt.Errorf("panic: %v", p)
+	}
+	{
+		var rawMerged interface{}
+		var rawErr error
+		if p := safely(func() { rawMerged, rawErr = merge.Merge(deepCopyJSON(prev), implDelta) }); p != nil {
+			rawErr = fmt.Errorf("panic: %v", p)
 		}
+		rawCanon := "error"
+		if rawErr == nil {
+			if rt, err := jsonRound(rawMerged); err == nil {
+				rawCanon = Canon(rt)
+			}
+		}
+		if rawCanon != Canon(specV) {
+			detail := map[string]interface{}{"what": "merge.Merge(strip old, Diff(old,new)) with the delta as Diff returned it (no JSON round trip) != strip new", "delta": wire, "merged": rawMerged, "spec": specV}
+			if rawErr != nil {
+				detail["merge_error"] = rawErr.Error()
+			}
+			rep.Fail("impl_ne_spec", []string{}, cs, detail)
+		}
+		rep.Count("raw-delta-merged")
 	}
 	implMerged := "error"
 	if mergeErr == nil {
@@ -649,7 +668,7 @@ func c03RunJS(c *Ctx, jobs []c03JSJob) {
 	}
 	var in bytes.Buffer
 	for _, j := range jobs {
-		line := map[string]interface{}{"prev": j.prev}
+		line := map[string]interface{}{"prev": j.prev, "delta": nil} // no delta: merge(prev, null)
 		if j.has {
 			line["delta"] = j.d
 		}
@@ -784,6 +803,12 @@ func c03Corpus() []c03Case {
 		{a(o("__key", "a", "b", i(1)), o("__key", "b", "b", i(2))), a(o("__key", "a", "b", i(1)), "b")}, // scalar equal to the key of the object it replaces
 		{o("__key", nil, "a", i(1)), o("a", i(1))},                                                      // nil __key disappears
 		{o("a", i(1)), o("__key", nil, "a", i(1))},                                                      // nil __key appears
+		{a(i(1), i(2)), a(i(2), i(1))},                                                                  // C03-5: reorder indices of a delta that has not been through JSON
+		{o("a", i(1)), o("a", i(1))},                                                                    // C03-6 / C03-7: the empty delta
+		{a(i(1)), a(nil)},                                                                               // C03-8: a new element that is null
+		{o(), o("__proto__", i(1))},                                                                     // C03-9: a field named __proto__
+		{o("a", i(1)), o("a", i(1), "__proto__", o("b", i(2)))},                                         // C03-9: ... with an object value
+		{o("__proto__", o("b", i(2))), o("__proto__", o("b", i(3)))},                                    // C03-9: ... updated in place
 	}
 }
 
